@@ -1077,6 +1077,22 @@ def generate_search_data_ctl(sd_mod):
     return "\n".join(out) + "\nend Gen.SearchDataCtl\n", []
 
 
+def generate_evolvent_loops(cls):
+    """statement trees of the two level loops `__GetYonX`, `__GetXonY` (and of `__CalculateNode` / `__CalculateNumbr` for reference)"""
+    out = ["-- GENERATED by harness/src2lean.py from the SOURCE TEXT of iOpt/evolvent/evolvent.py under /repo; do not edit.\n"
+           "import IOptGen.ProcessSrc\n"
+           "/-!\n`Evolvent.__GetYonX`, `__GetXonY`, `__CalculateNode`, `__CalculateNumbr` as statement trees (`Gen.ProcSrc.Stmt`).\n-/\n"
+           "namespace Gen.EvolventLoops\nopen Gen.ProcSrc\n"]
+    for name, attr in (("getYonX", "_Evolvent__GetYonX"), ("getXonY", "_Evolvent__GetXonY"),
+                       ("calculateNode", "_Evolvent__CalculateNode"), ("calculateNumbr", "_Evolvent__CalculateNumbr")):
+        fa = func_ast(cls.__dict__[attr])
+        params = [a.arg for a in fa.args.args]
+        out.append(f"/-- parameters of `Evolvent.{attr.replace('_Evolvent', '')}` -/\ndef {name}Params : List String := "
+                   + "[" + ", ".join(_lean_str(x) for x in params) + "]\n")
+        out.append(f"/-- body of `Evolvent.{attr.replace('_Evolvent', '')}` -/\ndef {name} : List Stmt :=\n  " + _stmts_to_lean(fa.body, 2) + "\n")
+    return "\n".join(out) + "\nend Gen.EvolventLoops\n", []
+
+
 def generate_evolvent_ctl(cls):
     """statement trees (same `Stmt`) of the public methods of `Evolvent` and of the two affine maps they call"""
     out = ["-- GENERATED by harness/src2lean.py from the SOURCE TEXT of iOpt/evolvent/evolvent.py under /repo; do not edit.\n"
@@ -1152,6 +1168,8 @@ def _stmt_to_lean(s_, ind):
         return None                                   # docstring / bare string literal
     if isinstance(s_, ast.Pass):
         return None
+    if isinstance(s_, ast.AnnAssign) and s_.value is None:
+        return None                                   # a bare annotation `x: T` declares nothing at run time
     if isinstance(s_, ast.Expr) and isinstance(s_.value, ast.Call):
         c = s_.value
         return f".call [] {_lean_str(ast.unparse(c.func))} {L([ast.unparse(a) for a in c.args] + [k.arg + '=' + ast.unparse(k.value) for k in c.keywords])}"
@@ -1219,6 +1237,9 @@ if __name__ == "__main__":
     if "--s3" in sys.argv:
         from iOpt.problems.stronginC3 import StronginC3
         text, errors = generate_s3(StronginC3)
+    if "--evloops" in sys.argv:
+        from iOpt.evolvent.evolvent import Evolvent
+        text, errors = generate_evolvent_loops(Evolvent)
     if "--evctl" in sys.argv:
         from iOpt.evolvent.evolvent import Evolvent
         text, errors = generate_evolvent_ctl(Evolvent)
